@@ -37,7 +37,7 @@ struct ItemProg {
   std::vector<int> flags;        // per nhood entry: 0 WRITE, 1 READ, 2 UNPROTECTED (no lock taken)
   std::vector<int> prePush;      // children pushed before the last acquire
   std::vector<int> postPush;     // children pushed after the cautious point
-  int vabortOn = 0;              // voluntary abort on this attempt number (0 = never)
+  int vabortOn = 0;              // voluntary abort on every attempt up to this number (0 = never)
   int level = 0;                 // priority / round
   int alloc = 0;                 // bytes taken from the per-iteration allocator
 };
@@ -94,7 +94,7 @@ inline void theOperator(int item, Ctx& ctx) {
     galois::runtime::acquire(&objs[o], ip.flags[k] == 1 ? galois::MethodFlag::READ : galois::MethodFlag::WRITE);
     logp(tid, ks("ev", "acq") + "," + kv("t", tid) + "," + kv("o", o));
   }
-  if (ip.vabortOn && ip.vabortOn == att && g_conflicts && (g_threads > 1 || g_probe1)) {
+  if (ip.vabortOn && att <= ip.vabortOn && g_conflicts && (g_threads > 1 || g_probe1)) {
     logp(tid, ks("ev", "vabort") + "," + kv("t", tid) + "," + kv("i", item));
     ctx.abort();
   }
@@ -137,8 +137,11 @@ inline void theOperator(int item, Ctx& ctx) {
 }
 
 // program generator: fan-out trees below the initial items, overlapping neighbourhoods
+static int g_shape = 0;  // 0 normal, 1 one item pushes > 64 children before aborting, 2 deep chain with leaves, 3 sparse levels
 inline void genProgram(Program& p, vh::Rng& r, int nInit, int nObj, int maxDepth, int maxFan, bool monotoneLevels,
                        bool withVabort, int levelSpread) {
+  if (g_shape == 2) { maxDepth = 14; maxFan = 2; if (nInit > 2) nInit = 1 + (int)r.below(2); }
+  if (g_shape == 3 && levelSpread) levelSpread = 24;
   p.items.clear(); p.initial.clear();
   p.nobj = nObj;
   struct Pending { int id; int depth; };
@@ -162,15 +165,29 @@ inline void genProgram(Program& p, vh::Rng& r, int nInit, int nObj, int maxDepth
       p.items[cur.id].nhood.push_back(p.items[cur.id].nhood[0]);
       p.items[cur.id].flags.push_back(0);
     }
-    if (withVabort && r.coin(1, 6)) p.items[cur.id].vabortOn = 1 + (int)r.below(2);
+    if (withVabort && r.coin(1, 6)) p.items[cur.id].vabortOn = r.coin(1, 5) ? 3 + (int)r.below(6) : 1 + (int)r.below(2);
     if (r.coin(1, 3)) p.items[cur.id].alloc = 8 + 8 * (int)r.below(40);
+    if (g_shape == 1 && cur.id == 0 && withVabort && nObj > 0) {
+      // one iteration pushes more than the fast-push-back limit (64) before its last acquire and aborts
+      if (p.items[0].nhood.empty()) { p.items[0].nhood.push_back(0); p.items[0].flags.push_back(0); }
+      p.items[0].vabortOn = 1;
+      for (int f = 0; f < 70; ++f) {
+        int cid = (int)p.items.size();
+        ItemProg child; child.level = p.items[0].level;
+        p.items.push_back(child);
+        p.items[0].prePush.push_back(cid);
+      }
+      continue;
+    }
     if (cur.depth < maxDepth && (int)p.items.size() < 60000) {
       int fan = (int)r.below(maxFan + 1);
+      if (g_shape == 2) fan = (cur.depth % 2 == 0 || cur.id % 3 == 0) ? 1 + (int)r.below(2) : 0;   // chain plus leaves
       for (int f = 0; f < fan; ++f) {
         int cid = (int)p.items.size();
         ItemProg child;
         // monotone programs: children have equal or lower urgency (higher or equal level number)
-        child.level = monotoneLevels ? p.items[cur.id].level + (int)r.below(2 + (levelSpread > 4)) : (levelSpread ? (int)r.below(levelSpread) : 0);
+        child.level = monotoneLevels ? p.items[cur.id].level + (g_shape == 3 ? (int)r.below(5) : (int)r.below(2 + (levelSpread > 4)))
+                                     : (levelSpread ? (int)r.below(levelSpread) : 0);
         p.items.push_back(child);
         if (r.coin(1, 2) && !p.items[cur.id].nhood.empty()) p.items[cur.id].prePush.push_back(cid);
         else p.items[cur.id].postPush.push_back(cid);
@@ -279,7 +296,7 @@ inline Args parse(int argc, char** argv) {
 // drives one worklist type through the standard scenario set of this mode
 template <typename WL>
 inline void campaign(const char* wlname, const Args& a, vh::Rng& rng, const char* kind = "plain", int descending = 0,
-                     bool conflictsAllowed = true) {
+                     bool conflictsAllowed = true, int mult = 1) {
   if (!a.only.empty() && a.only != wlname) return;
   installCrashHandler();
   if (a.mode == "probe1") {
@@ -296,7 +313,7 @@ inline void campaign(const char* wlname, const Args& a, vh::Rng& rng, const char
   }
   unsigned maxT = galois::substrate::getThreadPool().getMaxThreads();
   bool ctl = a.mode == "ctl";
-  int execs = ctl ? (a.thorough ? 120 : 14) : (a.thorough ? 30 : 5);
+  int execs = mult * (ctl ? (a.thorough ? 120 : 14) : (a.thorough ? 30 : 5));
   bool level = std::string(kind) != "plain";
   for (int e = 0; e < execs; ++e) {
     uint64_t s = rng.next();
@@ -306,9 +323,13 @@ inline void campaign(const char* wlname, const Args& a, vh::Rng& rng, const char
     rc.conflicts = conflictsAllowed && (e % 3 != 2);
     Program prog;
     vh::Rng pr(s ^ 0x5555);
+    g_shape = (e % 7 == 3) ? 1 : (e % 7 == 5) ? 2 : (level && e % 7 == 6) ? 3 : 0;
+    if (g_shape == 1 && !rc.conflicts) g_shape = 0;
+    if (g_shape == 1 && rc.threads < 2) rc.threads = 2;
     if (ctl) genProgram(prog, pr, 1 + (int)pr.below(5), rc.conflicts ? 1 + (int)pr.below(3) : 0, 2, 2, level, true, level ? 3 : 0);
     else genProgram(prog, pr, 1 + (int)pr.below(a.thorough ? 400 : 60), rc.conflicts ? 1 + (int)pr.below(6) : 0, 3, 2, level, true, level ? 6 : 0);
     if (descending) for (auto& it : prog.items) it.level = -it.level;
+    g_shape = 0;
     runOne<WL>(prog, rc);
   }
 }
